@@ -101,7 +101,7 @@ def execute(pid, unit_cases, run_cases, pairs=None):
                 if pr["a"] not in feat_cache:
                     feat_cache[pr["a"]] = ast_features(ra.get("in")) if "in" in ra else {"*"}
                 fs = feat_cache[pr["a"]]
-                if "*" in fs or pr["requires_not"] in fs or (pr["requires_not"] == "pattern-match" and rb.get("patmatch")):
+                if "*" in fs or pr["requires_not"] in fs or (pr["requires_not"] == "pattern-match" and rb.get("patmatch_ident", rb.get("patmatch"))):
                     continue
             if "out" not in ra or "out" not in rb:
                 if ("out" in ra) != ("out" in rb) and not ("parse_error" in ra or "parse_error" in rb):
@@ -407,7 +407,7 @@ def c01_cases(tier, seed):
 PROPS["C01"] = {
     "theorems": ["C01_tag_known", "C01_tag_fragment", "C01_tag_pattern", "C01_tag_unresolved", "C01_tag_bound", "C01_tag_member", "C01_tag_member_shape",
                  "C01_valueless_true", "C01_string_value_cleaned", "C01_expr_value", "C01_spread_plain", "C01_spread_merge",
-                 "C01_no_attrs", "C01_assemble_merge"],
+                 "C01_no_attrs", "C01_assemble_merge", "C01_tag_member_hyphen"],
     "cases": c01_cases,
     "explanation": "oracle: for every JSX element of the input, the vnode type and the props normal form (Sem.normOps: Vue mergeProps / plain last-wins semantics, class/style/listener concatenation) DENOTED by the written attributes equal those EVALUATED from the real output's createVNode arguments (mergeProps calls, deduplicated literals, _transformOn layers); elements with v-model are judged by C05",
 }
@@ -758,6 +758,16 @@ def c15_cases(tier, seed):
         if len(run) % 3 == 0:
             o["optimize"] = True
         run.append({"id": "e%d" % len(run), "src": gen.PRELUDE + src + "\n", "tsx": False, "opts": o})
+    # several leading comments at ONE position: the first that is a `@jsx <name>` annotation counts, the others are skipped
+    for t1, t2 in itertools.product(ANNOT_TEXTS, repeat=2):
+        for place in ("head", "second"):
+            if tier == "quick" and (len(run) % 2):
+                run.append(None); continue
+            st1, st2 = (["block", "jsdoc", "line"][len(run) % 3], ["jsdoc", "block", "line"][len(run) % 3])
+            cc = comment(st1, t1) + "\n" + comment(st2, t2)
+            src = (cc + "\n" + "\n".join(body)) if place == "head" else (body[0] + "\n" + cc + "\n" + "\n".join(body[1:]))
+            run.append({"id": "mc%d" % len(run), "src": gen.PRELUDE + src.replace("INNER", "") + "\n", "tsx": False, "opts": {} if len(run) % 4 else {"pragma": "g"}})
+    run = [x for x in run if x is not None]
     def o15(rr):
         o = gen.opts_random(rr)
         if rr.chance(0.4):
@@ -773,7 +783,7 @@ def c15_cases(tier, seed):
             lines.insert(pos, c.rstrip("\n"))
             m["src"] = "\n".join(lines)
     run += mods
-    return [], run, {"rule": "fixtures + product of 16 annotation texts (name, padded, starred, dotted name, trailing words, @jsxImportSource/@jsxRuntime/@jsxFrag, bare @jsx, not at the start, wrong case, tab) x block/line/JSDoc style x placement (file head, before the second statement, inside a function, after the code, earlier+later annotation) x pragma option absent/present + %d generated modules (half with a random annotation at a random line, 40%% with the pragma option)" % len(mods),
+    return [], run, {"rule": "fixtures + product of 16 annotation texts (name, padded, starred, dotted name, trailing words, @jsxImportSource/@jsxRuntime/@jsxFrag, bare @jsx, not at the start, wrong case, tab) x block/line/JSDoc style x placement (file head, before the second statement, inside a function, after the code, earlier+later annotation) x pragma option absent/present + all ORDERED PAIRS of annotation texts as two leading comments of one statement (head / second statement; sampled 1/2 in quick) + %d generated modules (half with a random annotation at a random line, 40%% with the pragma option)" % len(mods),
                      "exhaustive": True, "exhaustive_part": "annotation texts x styles x placements x option product", "histogram": dict(hist.most_common(30))}
 
 
